@@ -239,7 +239,7 @@ pub fn literal_soup(r: &mut Rng) -> String {
 /// 33-class enumeration is too short to spell the interesting neighbourhoods (else after a non-conditional,
 /// restart inside a later condition, blocks around groups, apply forms inside nested expressions)
 pub const FOCUS: [(&str, &[&str]); 5] = [
-    ("conditionals", &["5", "x", "?>", "!>", "|>", "(", ")", "^~", ",", "&&"]),
+    ("conditionals", &["5", "x", "?>", "!>", "|>", "(", ")", "^~", ",", "&&", ";;"]),
     ("blocks-and-lists", &["5", "x", "[", "]", "(", ")", ",", "+", "--", "~~", ";"]),
     ("expressions-and-apply", &["5", "$", "{", "}", "<~", "~>", "~~", "^~", "?>", ";"]),
     ("separators", &["5", "x", ";", "\n\n", ";;", "(", ")", "{", "}", ",", "[", "]"]),
